@@ -235,3 +235,70 @@ FAMILIES = [
            required_labels=["plh:op=validate", "plh:op=column_validate", "plh:op=transform", "plh:lazyframe", "plh:depth",
                             "plh:failed-validation-in-history"]),
 ]
+
+
+# ------------------------------------------------------------------ pandas: labels that are equal but print differently
+
+
+@st.composite
+def strat_label_types(draw):
+    """A regex column over frames whose column labels are the same numbers as int, float, bool or text: which columns a
+    pattern selects depends on how the label prints (2019 / 2019.0 / '2019'), never on which frame was validated before."""
+    a = draw(st.integers(1000, 9999))
+    b = draw(st.integers(1000, 9999).filter(lambda x: x != a))
+    if draw(st.integers(0, 4)) == 0:
+        a, b = 1, 0
+    pattern = draw(st.sampled_from([r"^\d{4}$", r"^\d+$", r"^\d", r"^\d+\.0$", r"^(True|False)$", r"^[01]$", r"\.", r"^\d{4}"]))
+    flavours = ["int", "float", "str"] + (["bool"] if (a, b) == (1, 0) else [])
+    k = draw(st.integers(2, len(flavours)))
+    chosen = list(draw(st.permutations(flavours)))[:k]
+    return {"a": a, "b": b, "pattern": pattern, "flavours": chosen, "bad": draw(st.booleans()), "lazy": draw(st.booleans())}
+
+
+def eval_label_types(case):
+    import itertools
+
+    import pandas as pd
+    import pandera as pa
+
+    ev = Eval()
+    conv = {"int": int, "float": float, "str": str, "bool": bool}
+
+    def frame(fl):
+        labels = [conv[fl](case["a"]), conv[fl](case["b"])]
+        df = pd.DataFrame([[1, -1 if case["bad"] else 2], [3, 4]])
+        df.columns = labels
+        return df
+
+    def run(order, k):
+        # (an equivalent spelling of the pattern per order - k empty groups appended - so that nothing keyed by the
+        # pattern's text carries over from one order to the next; what is compared is the effect of the order itself)
+        schema = pa.DataFrameSchema({case["pattern"] + "(?:)" * k: pa.Column(int, pa.Check.gt(0), regex=True, required=False)})
+        out = {}
+        for fl in order:
+            o = fp.outcome(lambda: schema.validate(frame(fl), lazy=case["lazy"]))
+            out[fl] = (o["kind"], tuple(sorted(o.get("reasons") or [])))
+        return out
+
+    ev.labels += ["lt:flavours=" + "+".join(sorted(case["flavours"])), "lt:pattern=" + case["pattern"]]
+    ev.nontrivial = True
+    results = {}
+    for k, order in enumerate(itertools.permutations(case["flavours"])):
+        results[order] = run(order, k + 1 + (case["a"] % 5) * 7)
+        ev.executions += 1
+    base_order = next(iter(results))
+    for fl in case["flavours"]:
+        verdicts = {order: r[fl] for order, r in results.items()}
+        if len(set(verdicts.values())) > 1:
+            ev.add("verdict-depends-on-frames-validated-before", {
+                "labels": fl, "pattern": case["pattern"],
+                "by_order": [["->".join(o), list(v)] for o, v in list(verdicts.items())[:4]]})
+            return ev
+    if len({r for res in results.values() for r in res.values()}) > 1:
+        ev.labels.append("lt:flavours-get-different-verdicts")
+    return ev
+
+
+FAMILIES.append(
+    Family("label_types", eval_label_types, strategy=strat_label_types, n_quick=150, n_thorough=1500, shards_quick=2, shards_thorough=8,
+           required_labels=["lt:flavours-get-different-verdicts"]))
